@@ -698,7 +698,8 @@ class ScopeSymbol(InstanceSymbol):
         return 80
     
     def getHeight(self):
-        return 80
+        # one pin every portpitch pixels: never shorter than the generic box, so that every pin stays inside the symbol
+        return max(80, LogicSymbol.getHeight(self))
     
     def draw(self, canvas, debug=False):
         x = self.x 
